@@ -83,11 +83,16 @@ type c19World struct {
 	sinkIn   chan int
 	sinkTok  chan struct{}
 	delay    time.Duration
+	lg       *c19GateLog // optional: a logger that parks the goroutine writing a chosen debug line (c19c.go)
 }
 
 func c19ID(p, k int) int { return p*100000 + k }
 
 func newC19World(c c19Cfg, gateSink bool, delay time.Duration) (*c19World, error) {
+	return newC19WorldLog(c, gateSink, delay, nil)
+}
+
+func newC19WorldLog(c c19Cfg, gateSink bool, delay time.Duration, lg *c19GateLog) (*c19World, error) {
 	pc := types.DefaultPerformanceConfig()
 	pc.BufferConfig.DataChannelSize = c.cap
 	pc.BufferConfig.ResultChannelSize = 4096
@@ -105,11 +110,15 @@ func newC19World(c c19Cfg, gateSink bool, delay time.Duration) (*c19World, error
 	pc.OverflowConfig.ExpansionConfig.GrowthFactor = float64(c.gnum) / float64(c.gden)
 	pc.OverflowConfig.ExpansionConfig.MinIncrement = c.minInc
 	pc.OverflowConfig.ExpansionConfig.TriggerThreshold = float64(c.tnum) / float64(c.tden)
-	w := &c19World{sinkIn: make(chan int, 1<<16), sinkTok: make(chan struct{}, 1<<16), delay: delay}
+	w := &c19World{sinkIn: make(chan int, 1<<16), sinkTok: make(chan struct{}, 1<<16), delay: delay, lg: lg}
 	if gateSink {
 		w.gateSink = 1
 	}
-	w.s = streamsql.New(streamsql.WithDiscardLog(), streamsql.WithCustomPerformance(pc))
+	if lg != nil {
+		w.s = streamsql.New(streamsql.WithDiscardLog(), streamsql.WithLogger(lg), streamsql.WithCustomPerformance(pc))
+	} else {
+		w.s = streamsql.New(streamsql.WithDiscardLog(), streamsql.WithCustomPerformance(pc))
+	}
 	if err := w.s.Execute("SELECT id FROM stream"); err != nil {
 		return nil, err
 	}
@@ -194,6 +203,9 @@ func (w *c19World) close() {
 		}
 	}
 	stream.VerifYieldReset(false)
+	if w.lg != nil {
+		w.lg.Open()
+	}
 	done := make(chan struct{})
 	go func() { w.s.Stop(); close(done) }()
 	select {
@@ -208,6 +220,9 @@ func (w *c19World) close() {
 func (w *c19World) unexpected(c c19Cfg, steps []string, what string, pending []chan struct{}, o *Out) error {
 	steps = append(steps, "U", strings.ReplaceAll(strings.ReplaceAll(what, " ", "_"), "#", "_"))
 	stream.VerifYieldReset(false)
+	if w.lg != nil {
+		w.lg.Open()
+	}
 	atomic.StoreInt32(&w.gateSink, 0)
 	for i := 0; i < 4096; i++ {
 		select {
@@ -608,6 +623,10 @@ func runC19(tier string, seed uint64, o *Out) error {
 	if err := c19SendDuringExpansionFamily(tier, NewRNG(seed+77), o); err != nil {
 		return err
 	}
+	// forced: the other producers take the slots an expansion has added before the expander's own second send
+	if err := c19ExpanderLosesRaceFamily(tier, NewRNG(seed+78), o); err != nil {
+		return err
+	}
 	for i := 0; i < nSeq; i++ {
 		c := c19RandCfg(rng, []int{0, 1, 2, 3, 3, 3}[rng.Intn(6)])
 		if err := c19Sequential(c, rng, 10+rng.Intn(40), 0, o); err != nil {
@@ -628,6 +647,17 @@ func runC19(tier string, seed uint64, o *Out) error {
 	for i := 0; i < nRand; i++ {
 		c := c19RandCfg(rng, []int{0, 1, 2, 3, 3, 4}[rng.Intn(6)])
 		if err := c19Random(c, rng, o); err != nil {
+			return err
+		}
+	}
+	// crowd runs: 8 producers, buffer 1-2, one or two slots added per expansion
+	nCrowd, crowdRows := 3, 120
+	if tier == "thorough" {
+		nCrowd, crowdRows = 24, 250
+	}
+	crng := NewRNG(seed + 79)
+	for i := 0; i < nCrowd; i++ {
+		if err := c19Crowd(crng, crowdRows, o); err != nil {
 			return err
 		}
 	}
